@@ -73,6 +73,10 @@ def _trunc(n):
 for _n in (1, 2, 3, 4, 5):
     add('iso_T_f%d' % _n, (lambda n: lambda d: '%04d-%02d-%02dT%02d:%02d:%02d.%s' % (d.year, d.month, d.day, d.hour, d.minute, d.second, _fr(d, n)))(_n), 'f%d' % _n)
     add('iso_hms_f%d' % _n, (lambda n: lambda d: '%04d-%02d-%02d %02dh%02dm%02d.%ss' % (d.year, d.month, d.day, d.hour, d.minute, d.second, _fr(d, n)))(_n), 'f%d' % _n)
+add('compactT6_comma3', lambda d: '%04d%02d%02dT%02d%02d%02d,%s' % (d.year, d.month, d.day, d.hour, d.minute, d.second, _fr(d, 3)), 'f3')
+add('compactT6_comma6', lambda d: '%04d%02d%02dT%02d%02d%02d,%s' % (d.year, d.month, d.day, d.hour, d.minute, d.second, _fr(d, 6)), 'us')
+add('compact_sp6_comma1', lambda d: '%04d%02d%02d %02d%02d%02d,%s' % (d.year, d.month, d.day, d.hour, d.minute, d.second, _fr(d, 1)), 'f1')
+add('iso_sp_comma6', lambda d: '%04d-%02d-%02d %02d:%02d:%02d,%s' % (d.year, d.month, d.day, d.hour, d.minute, d.second, _fr(d, 6)), 'us')
 add('compactT6_f3', lambda d: '%04d%02d%02dT%02d%02d%02d.%s' % (d.year, d.month, d.day, d.hour, d.minute, d.second, _fr(d, 3)), 'f3')
 add('iso_hmsf', lambda d: '%04d-%02d-%02d %02dh%02dm%02d.%06ds' % (d.year, d.month, d.day, d.hour, d.minute, d.second, d.microsecond), 'us')
 add('us_slash', lambda d: '%02d/%02d/%04d' % (d.month, d.day, d.year), 'd')
